@@ -586,3 +586,62 @@ Proof.
   split; [rewrite <- E1, <- E2; exact A1|]. split; [rewrite X1; apply linspace_head; lia|].
   rewrite X2. apply linspace_last. exact Hnr.
 Qed.
+
+(* ---------- one refinement with hypotheses about THIS axis only: grid.middle lies strictly inside each of ITS gaps
+   (a middle that depends on the grid's state -- CTMCGridProbabilityStep.middle reads grid.h -- is not a between-function
+   of arbitrary arguments: middle(-0.001, 0) = -h/2) *)
+Fixpoint mid_inside (mid : Q -> Q -> Q) (xs : list Q) : Prop :=
+  match xs with
+  | [] => True
+  | x :: r => match r with [] => True | y :: _ => (x < mid x y /\ mid x y < y) /\ mid_inside mid r end
+  end.
+
+Lemma mid_inside_nth mid xs : mid_inside mid xs -> forall i, (i + 1 < length xs)%nat ->
+  nthq xs i < mid (nthq xs i) (nthq xs (i + 1)) /\ mid (nthq xs i) (nthq xs (i + 1)) < nthq xs (i + 1).
+Proof.
+  unfold nthq. induction xs as [|x r IH]; intros H i Hi; [simpl in Hi; lia|].
+  destruct r as [|y r']; [simpl in Hi; lia|]. destruct H as [Hxy Hr].
+  destruct i as [|i]; [exact Hxy|]. apply (IH Hr i). simpl in *. lia.
+Qed.
+
+Lemma refine_incr_axis mid xs : mid_inside mid xs -> incr (refine_axis mid xs).
+Proof.
+  induction xs as [|x r IH]; [trivial|]. intros H.
+  destruct r as [|y r']; [exact I|].
+  change (refine_axis mid (x :: y :: r')) with (x :: mid x y :: refine_axis mid (y :: r')).
+  destruct H as [[M1 M2] Hr]. split; [exact M1|]. specialize (IH Hr).
+  destruct r' as [|z r'']; [simpl; split; [exact M2|exact I]|].
+  change (refine_axis mid (y :: z :: r'')) with (y :: mid y z :: refine_axis mid (z :: r'')) in *.
+  split; [exact M2|exact IH].
+Qed.
+
+Theorem refine_nests_axis mid xs : mid_inside mid xs -> xs <> [] ->
+  length (refine_axis mid xs) = (2 * length xs - 1)%nat
+  /\ (forall i, (i < length xs)%nat -> nthq (refine_axis mid xs) (2 * i) = nthq xs i)
+  /\ (forall i, (i + 1 < length xs)%nat ->
+        nthq (refine_axis mid xs) (2 * i + 1) = mid (nthq xs i) (nthq xs (i + 1))
+        /\ nthq xs i < nthq (refine_axis mid xs) (2 * i + 1) < nthq xs (i + 1))
+  /\ incr (refine_axis mid xs)
+  /\ headq (refine_axis mid xs) = headq xs /\ lastq (refine_axis mid xs) = lastq xs.
+Proof.
+  intros Hm N. split; [apply refine_length; exact N|]. split; [intros; apply refine_even; assumption|].
+  split; [|split; [apply refine_incr_axis; exact Hm|split; [apply refine_head|apply refine_last]]].
+  intros i Hlt. rewrite refine_odd by exact Hlt. split; [reflexivity|]. apply mid_inside_nth; assumption.
+Qed.
+
+Theorem refine_admissible_local mid xs o h : admissible xs o h -> mid_inside mid xs ->
+  mid (nthq xs (o - 1)) (nthq xs o) == - (h / 2) -> mid (nthq xs o) (nthq xs (o + 1)) == h / 2 ->
+  admissible (refine_axis mid xs) (2 * o) (h / 2).
+Proof.
+  intros (Hi & Ho1 & Ho2 & Hh & H0 & Hm & Hp) HM ML MR.
+  assert (N : xs <> []) by (intro E; rewrite E in Ho2; simpl in Ho2; lia).
+  unfold admissible. repeat split.
+  - apply refine_incr_axis; exact HM.
+  - lia.
+  - rewrite refine_length by exact N. lia.
+  - apply Qlt_shift_div_l; lra.
+  - rewrite refine_even by lia. exact H0.
+  - replace (2 * o - 1)%nat with (2 * (o - 1) + 1)%nat by lia.
+    rewrite refine_odd by lia. replace (o - 1 + 1)%nat with o by lia. exact ML.
+  - rewrite refine_odd by lia. exact MR.
+Qed.
